@@ -140,3 +140,5 @@ package fai
 //@   at stmt "lenID := bytes.IndexAny(b, " \t")" ghost ghdr = tokpos(sc)
 //@   loop 0 invariant @start ghdr >= 0 ==> rec.Start == int64(ghdr)
 //@   at stmt "lenID := bytes.IndexAny(b, " \t")" assume ret != 0
+//@   loop 0 invariant @layout rec.BasesPerLine <= rec.BytesPerLine && (rec.BytesPerLine == 0 ==> (rec.BasesPerLine == 0 && rec.Length == 0)) &&
+//@       (rec.Length > 0 ==> rec.BasesPerLine > 0)
